@@ -80,3 +80,18 @@ package codegen
 //@   at return assert [binding-array] is(ty, ir.BindingArrayType) ==> result == w.options.BoundsCheckPolicies.BindingArray
 //@   at return assert [buffer] !is(ty, ir.BindingArrayType) && ok && (space == ir.SpaceStorage || space == ir.SpaceUniform) ==> result == w.options.BoundsCheckPolicies.Buffer
 //@   at return assert [index] !is(ty, ir.BindingArrayType) && (!ok || (space != ir.SpaceStorage && space != ir.SpaceUniform)) ==> result == w.options.BoundsCheckPolicies.Index
+//
+// ---- reserved-word data (C16): C++14 keywords, alternative tokens and the Metal
+// address-space / function qualifiers (list from the C++14 and MSL specifications).
+//
+//@ table C16 reservedWords
+//@   contains alignas alignof and and_eq asm auto bitand bitor bool break case catch
+//@   contains char char16_t char32_t class compl const constexpr const_cast continue decltype default delete
+//@   contains do double dynamic_cast else enum explicit export extern false float for friend
+//@   contains goto if inline int long mutable namespace new noexcept not not_eq nullptr
+//@   contains operator or or_eq private protected public register reinterpret_cast return short signed sizeof
+//@   contains static static_assert static_cast struct switch template this thread_local throw true try typedef
+//@   contains typeid typename union unsigned using virtual void volatile wchar_t while xor xor_eq
+//@   contains kernel vertex fragment device constant threadgroup thread half uint ushort uchar metal
+//@   contains main
+//@   none-suffix _
